@@ -105,9 +105,25 @@ def struct_basic(g, n_cp=None, shape=None, fields=None, rich=True):
             hint_for[t.f["ty"]] = r.choice([None, None, None, "{}" if shape == "named" else "()"])
         t.f["hint"] = hint_for[t.f["ty"]]
     nf = fields or r.randint(1, 6)
+    named_cp = None
+    if shape == "tuple" and rich and g.chance(0.3):
+        named_cp = r.choice(cps)
+        for t in it.attrs:
+            if t.f["ty"] == named_cp:
+                t.f["hint"] = "{}"
     for i in range(nf):
         f = Field(f"f{i}" if shape == "named" else None, r.choice(LEAF_TYPES))
+        if named_cp is not None:
+            all_fal = all(t.f.get("err") for t in it.attrs if t.kind == "trait" and t.f["ty"] == named_cp)
+            nm_ = "try_map" if (all_fal and g.chance(0.5)) else "map"
+            # written after a possible default instruction of the same member: the dedicated one still is the one that counts
+            f.attrs.append(Instr(nm_, "map", container=named_cp, member=f"m{g.mark()}", action=(g.expr(at=False) if g.chance(0.25) else None), braced=True))
         roll = r.random()
+        if named_cp is not None:
+            # other instructions of the member could out-rank the naming one for single kinds (exact kind before fallback): only ghosts of other counterparts are added
+            roll = 0.0
+            if len(cps) > 1 and g.chance(0.3):
+                f.attrs.insert(0, Instr("ghost", "ghost", container=r.choice([c for c in cps if c != named_cp]), action=f"k{g.mark()}()", braced=True))
         if not rich or roll < 0.4:
             pass
         elif roll < 0.7:
@@ -123,26 +139,31 @@ def struct_basic(g, n_cp=None, shape=None, fields=None, rich=True):
         else:
             f.attrs.append(g.member_map(cps, named_target=(shape == "named"), idx=i, force_member=True, names=["map"]))
             f.attrs.append(g.member_map(cps, named_target=(shape == "named"), idx=i, names=["from_owned", "ref_into", "owned_into_existing", "try_from"]))
+        # a ghost of the field-named counterpart needs no name; everything else got one above
         it.fields.append(f)
     if rich and g.chance(0.4):
         # type level ghosts: default and/or dedicated
-        def entries():
+        def entries(by_name=False):
             es = []
             for j in range(r.randint(1, 2)):
                 k = g.mark()
-                es.append(dict(path=None, ident=(f"g{k}" if shape == "named" else nf + j), action=f"k{k}()"))
+                es.append(dict(path=None, ident=(f"g{k}" if (shape == "named" or by_name) else nf + j), action=f"k{k}()"))
             return es
         nm = r.choice(["ghosts", "ghosts", "ghosts_owned", "ghosts_ref"])
-        if g.chance(0.6):
+        # a counterpart addressed by field name gets its ghosts by name, the positional ones by index: no default list can serve both
+        if g.chance(0.6) and named_cp is None:
             it.attrs.append(Instr(nm, "ghosts", container=None, entries=entries()))
         if g.chance(0.5):
-            it.attrs.append(Instr(nm, "ghosts", container=r.choice(cps), entries=entries()))
+            c_ = r.choice(cps)
+            it.attrs.append(Instr(nm, "ghosts", container=c_, entries=entries(by_name=(c_ == named_cp))))
     if rich and g.chance(0.2):
-        it.generics = "<T>"
+        it.generics = "<T>" if g.chance(0.6) else "<'a, 'b, T>"
         if g.chance(0.7):
             it.attrs.append(Instr("where_clause", "where_clause", container=(r.choice(cps) if g.chance(0.4) else None), preds=f"T: W{g.mark()}"))
         if g.chance(0.5):
             it.where = f"T: Ow{g.mark()}"      # the type's own where clause
+            if "'b" in it.generics:
+                it.where = r.choice(["'b: 'a, ", "T: 'a, 'b: 'a, "]) + it.where
     if rich:
         add_params(g, it)
     r.shuffle(it.attrs) if g.chance(0.5) else None
@@ -194,6 +215,12 @@ def struct_children(g, n_cp=None):
     for _ in range(r.randint(1, 4)):
         base = r.choice(frontier)
         seg = f"p{g.mark()}" if (not uni or not g.chance(0.12)) else uni.pop()
+        if not seg.isascii() and "ab" in uni and g.chance(0.6):
+            # a sibling whose name shares the first byte(s)
+            uni.remove("ab")
+            sib = f"{base}.ab" if base else "ab"
+            paths.append(sib)
+            frontier.append(sib)
         p = f"{base}.{seg}" if base else seg
         paths.append(p)
         frontier.append(p)
@@ -255,7 +282,14 @@ def struct_children(g, n_cp=None):
                 it.attrs.append(Instr("child_parents", "child_parents", container=c, entries=cp_entries()))
     elif dedicated:
         for c in cps[:2]:
-            it.attrs.append(Instr("child_parents", "child_parents", container=c, entries=cp_entries()))
+            needs = any(k in ("owned_into", "ref_into") for t in it.attrs if t.kind == "trait" and t.f["ty"] == c for k in kinds_of(t.name))
+            ents = cp_entries()
+            if not needs and g.chance(0.6):
+                # only Into impls construct the nested structs: for From / IntoExisting the list may be partial or absent
+                ents = [e for e in ents if g.chance(0.4)]
+                if not ents:
+                    continue
+            it.attrs.append(Instr("child_parents", "child_parents", container=c, entries=ents))
     else:
         it.attrs.append(Instr("child_parents", "child_parents", container=None, entries=cp_entries()))
     if (ghost_only or g.chance(0.3)) and shape == "named":
@@ -374,7 +408,7 @@ def enum_basic(g, n_cp=None):
                     else:
                         f.attrs.append(Instr("map", "map", container=None, member=f"m{g.mark()}", action=(g.expr(at=False) if g.chance(0.3) else None), braced=True))
         elif roll < 0.4:
-            v.attrs.append(Instr(r.choice(["ghost", "ghost_owned"]), "ghost", container=None, action=f"k{g.mark()}()", braced=True))
+            v.attrs.append(Instr(r.choice(["ghost", "ghost_owned"]), "ghost", container=(r.choice(cps) if g.chance(0.35) else None), action=f"k{g.mark()}()", braced=True))
         elif roll < 0.5 and shape != "unit":
             k = g.mark()
             v.attrs.append(Instr("ghosts", "ghosts", container=None, entries=[dict(path=None, ident=(f"g{k}" if shape == "named" else len(v.fields)), action=f"k{k}()")]))
@@ -409,6 +443,11 @@ def enum_prim(g):
         r.shuffle(it.attrs)
     for i in range(r.randint(1, 5)):
         v = Variant(f"V{i}", "unit")
+        if plain is None and g.chance(0.2):
+            # a payload the primitive cannot carry: every field has a default (README: `#[literal(..)] V { #[ghost({..})] x }`)
+            v.shape = r.choice(["named", "tuple"])
+            for j in range(r.randint(1, 2)):
+                v.fields.append(Field(f"x{j}" if v.shape == "named" else None, r.choice(LEAF_TYPES), [Instr("ghost", "ghost", container=None, action=f"k{g.mark()}()", braced=True)]))
         ded = (len(cps) > 1 and g.chance(0.4)) or plain is not None
         if only_into or g.chance(0.7):
             if ded:
@@ -463,7 +502,39 @@ def struct_mixed_nests(g):
     return it
 
 
+def struct_unit(g):
+    """Unit struct mapped to several counterparts; the counterparts' members come from struct-level ghosts (README 'Unit structs', test 38)."""
+    r = g.r
+    cps = r.sample(["A", "B", "m::C", "G<i32>"], r.choice([1, 2, 2, 3]))
+    it = Item("struct", "S", shape="unit")
+    it.attrs = g.trait_set(cps)
+    it.meta["cps"] = cps
+    for c in cps:
+        form = r.choice(["none", "named", "tuple", "unit_hint"])
+        into_like = any(not k.startswith("from") for t in it.attrs if t.kind == "trait" and t.f["ty"] == c for k in kinds_of(t.name))
+        only_existing = into_like and all(k.endswith("existing") or k.startswith("from") for t in it.attrs if t.kind == "trait" and t.f["ty"] == c for k in kinds_of(t.name))
+        if form == "none" or not into_like:
+            continue
+        if form == "unit_hint":
+            for t in it.attrs:
+                if t.kind == "trait" and t.f["ty"] == c:
+                    t.f["hint"] = "Unit"
+            continue
+        if not only_existing or g.chance(0.5):
+            for t in it.attrs:
+                if t.kind == "trait" and t.f["ty"] == c:
+                    t.f["hint"] = "{}" if form == "named" else "()"
+        es = []
+        for j in range(r.randint(1, 2)):
+            k = g.mark()
+            es.append(dict(path=None, ident=(f"g{k}" if form == "named" else j), action=f"k{k}()"))
+        it.attrs.append(Instr(r.choice(["ghosts", "ghosts", "ghosts_owned"]), "ghosts", container=(c if (len(cps) > 1 or g.chance(0.5)) else None), entries=es))
+    r.shuffle(it.attrs)
+    return it
+
+
 PROFILES = {
+    "struct_unit": struct_unit,
     "struct_mixed_nests": struct_mixed_nests,
     "struct_basic": struct_basic,
     "struct_children": struct_children,
@@ -475,7 +546,7 @@ PROFILES = {
 
 def gen(g, profile=None):
     profile = profile or g.pick(["struct_basic", "struct_basic", "struct_basic", "struct_children", "struct_children", "struct_parents", "struct_parents", "enum_basic", "enum_basic", "enum_basic", "enum_basic",
-                                 "enum_prim", "enum_prim", "struct_mixed_nests"])
+                                 "enum_prim", "enum_prim", "struct_mixed_nests", "struct_unit"])
     it = PROFILES[profile](g)
     it.meta["profile"] = profile
     if getattr(g, "allow_unknown_p", 0.0) and g.chance(g.allow_unknown_p):
